@@ -42,85 +42,94 @@ def HonestFlight (P : Params) (H : HsParams) (dec : Dec) (okFin : Bytes → Bool
     Honest P dec ta tl cn 1 w2 ps closed
 
 /-- the SSLv2 pre-check does not fire on a record of another type -/
-theorem precheck (P : Params) (h5 : 5 ≤ P.recordHeaderLen) (r : Raw) (t : UInt8) (b w' : Bytes)
+theorem precheck (P : Params) (h5 : 5 ≤ P.recordHeaderLen) (hg : P.eofShortOnlyWhenShort = true)
+    (r : Raw) (hx : r.expired = false) (t : UInt8) (b w' : Bytes)
     (hp : parseOne P r.all = (.frame t b, w')) (ht : t.toNat ≠ 0x80) :
-    ¬ ((fill P.recordHeaderLen r.raw r.chunks).2.2 = true ∧
-       ((fill P.recordHeaderLen r.raw r.chunks).1.getD 0 0).toNat = 0x80) := by
+    ¬ ((r.fill P P.recordHeaderLen).2.2 = true ∧
+       ((r.fill P P.recordHeaderLen).1.getD 0 0).toNat = 0x80) := by
+  simp only [Raw.fill, hg, hx]
   rintro ⟨hok, h80⟩
-  have hl := fill_len _ _ _ hok
-  have ha : (fill P.recordHeaderLen r.raw r.chunks).1 ++ (fill P.recordHeaderLen r.raw r.chunks).2.1.flatten = r.all :=
-    fill_all P.recordHeaderLen r.chunks r.raw
-  have hg := prefix_getD r.all ha 0 (by omega)
-  rw [hg, (parseOne_typ P h5 _ _ _ _ hp).1] at h80
+  have hl := fill_len _ _ _ _ hok
+  have ha : (fill true r.eofWithLast false P.recordHeaderLen r.raw r.chunks).1 ++
+      (fill true r.eofWithLast false P.recordHeaderLen r.raw r.chunks).2.1.flatten = r.all :=
+    fill_all true r.eofWithLast false P.recordHeaderLen r.chunks r.raw
+  have hg' := prefix_getD r.all ha 0 (by omega)
+  rw [hg', (parseOne_typ P h5 _ _ _ _ hp).1] at h80
   exact ht h80
 
 /-- one pass over the peer's ChangeCipherSpec -/
 theorem readOneHs_ccs (P : Params) (dec : Dec) (ok : HsOK P) (s : HsRx) (tc : UInt8)
     (htc : tc.toNat = P.typeCCS) (w' : Bytes) (hk : s.keyed = false) (hh : s.hand = [])
+    (hx : s.io.expired = false)
     (hp : parseOne P s.io.all = (.frame tc [1], w')) :
     ∃ s1, readOneHs P dec true s = (.ccs, s1) ∧ s1.io.all = w' ∧ s1.keyed = true ∧ s1.seq = 0 ∧
-      s1.hand = [] ∧ s1.err = s.err := by
+      s1.hand = [] ∧ s1.err = s.err ∧ s1.io.expired = false := by
   have h5 : 5 ≤ P.recordHeaderLen := by rw [ok.ok.hdr]; omega
-  obtain ⟨a, b⟩ := nextFrame_parse P h5 s.io
+  obtain ⟨a, b⟩ := nextFrame_parse P h5 ok.ok.guard s.io hx
+  have hfl := (nextFrame_flags P s.io).1
   rw [hp] at a b
-  have hpre := precheck P h5 s.io tc [1] w' hp (by rw [htc]; exact ok.ccsNotV2)
+  have hpre := precheck P h5 ok.ok.guard s.io hx tc [1] w' hp (by rw [htc]; exact ok.ccsNotV2)
   unfold readOneHs
   simp only [hpre, ↓reduceIte]
   cases hn : nextFrame P s.io with
   | mk f io' =>
-    rw [hn] at a b
-    simp only [] at a b
+    rw [hn] at a b hfl
+    simp only [] at a b hfl
     subst a
     have h1 : ¬ P.maxPlaintext < 1 := by have := ok.one; omega
     have h2 : ¬ P.typeCCS = P.typeAppData := fun h => ok.ok.appNeCCS h.symm
     simp only [hsDec, hk, Bool.false_eq_true, ↓reduceIte, List.length_cons, List.length_nil, Nat.zero_add, h1,
       htc, h2, and_false, ok.ccsNeAlert, ne_eq, not_true_eq_false, false_and, hh, Nat.lt_irrefl,
       gt_iff_lt, Bool.true_eq_false]
-    exact ⟨_, rfl, b, rfl, rfl, rfl, rfl⟩
+    exact ⟨_, rfl, b, rfl, rfl, rfl, rfl, by rw [← hx]; exact hfl⟩
 
 /-- one pass over a protected handshake record while the handshake is running -/
 theorem readOneHs_hs (P : Params) (dec : Dec) (ok : HsOK P) (s : HsRx) (th : UInt8)
     (hth : th.toNat = P.typeHandshake) (body w' m : Bytes) (hk : s.keyed = true)
+    (hx : s.io.expired = false)
     (hp : parseOne P s.io.all = (.frame th body, w')) (hd : dec s.seq th body = some m)
     (h0 : 0 < m.length) (hm : m.length ≤ P.maxPlaintext) :
     ∃ s1, readOneHs P dec false s = (.grew, s1) ∧ s1.io.all = w' ∧ s1.keyed = true ∧
-      s1.seq = s.seq + 1 ∧ s1.hand = s.hand ++ m ∧ s1.err = s.err := by
+      s1.seq = s.seq + 1 ∧ s1.hand = s.hand ++ m ∧ s1.err = s.err ∧ s1.io.expired = false := by
   have h5 : 5 ≤ P.recordHeaderLen := by rw [ok.ok.hdr]; omega
-  obtain ⟨a, b⟩ := nextFrame_parse P h5 s.io
+  obtain ⟨a, b⟩ := nextFrame_parse P h5 ok.ok.guard s.io hx
+  have hfl := (nextFrame_flags P s.io).1
   rw [hp] at a b
-  have hpre := precheck P h5 s.io th body w' hp (by rw [hth]; exact ok.hsNotV2)
+  have hpre := precheck P h5 ok.ok.guard s.io hx th body w' hp (by rw [hth]; exact ok.hsNotV2)
   unfold readOneHs
   simp only [hpre, ↓reduceIte]
   cases hn : nextFrame P s.io with
   | mk f io' =>
-    rw [hn] at a b
-    simp only [] at a b
+    rw [hn] at a b hfl
+    simp only [] at a b hfl
     subst a
     have h1 : ¬ P.maxPlaintext < m.length := by omega
     have h4 : ¬ m.length = 0 := by omega
     simp only [hsDec, hk, ↓reduceIte, hd, h1, hth, ok.hsNeAlert, ok.hsNeCCS, ok.hsNeApp, h4, h0,
       Bool.true_eq_false, false_and, and_false, ne_eq, not_false_eq_true, true_and, and_true, gt_iff_lt,
       or_self, Bool.false_eq_true]
-    exact ⟨_, rfl, b, rfl, rfl, rfl, rfl⟩
+    exact ⟨_, rfl, b, rfl, rfl, rfl, rfl, by rw [← hx]; exact hfl⟩
 
 theorem readRecordHs_ccs (P : Params) (dec : Dec) (ok : HsOK P) (s : HsRx) (tc : UInt8)
     (htc : tc.toNat = P.typeCCS) (w' : Bytes) (he : s.err = none) (hk : s.keyed = false) (hh : s.hand = [])
+    (hx : s.io.expired = false)
     (hp : parseOne P s.io.all = (.frame tc [1], w')) :
     ∃ s1, readRecordHs P dec true (recFuel P) s = (none, s1) ∧ s1.io.all = w' ∧ s1.keyed = true ∧
-      s1.seq = 0 ∧ s1.hand = [] ∧ s1.err = none := by
-  obtain ⟨s1, h1, h2, h3, h4, h5, h6⟩ := readOneHs_ccs P dec ok s tc htc w' hk hh hp
-  refine ⟨s1, ?_, h2, h3, h4, h5, by rw [h6, he]⟩
+      s1.seq = 0 ∧ s1.hand = [] ∧ s1.err = none ∧ s1.io.expired = false := by
+  obtain ⟨s1, h1, h2, h3, h4, h5, h6, h7⟩ := readOneHs_ccs P dec ok s tc htc w' hk hh hx hp
+  refine ⟨s1, ?_, h2, h3, h4, h5, by rw [h6, he], h7⟩
   rw [recFuel_succ]
   simp [readRecordHs, he, h1]
 
 theorem readRecordHs_hs (P : Params) (dec : Dec) (ok : HsOK P) (s : HsRx) (th : UInt8)
     (hth : th.toNat = P.typeHandshake) (body w' m : Bytes) (he : s.err = none) (hk : s.keyed = true)
+    (hx : s.io.expired = false)
     (hp : parseOne P s.io.all = (.frame th body, w')) (hd : dec s.seq th body = some m)
     (h0 : 0 < m.length) (hm : m.length ≤ P.maxPlaintext) :
     ∃ s1, readRecordHs P dec false (recFuel P) s = (none, s1) ∧ s1.io.all = w' ∧ s1.keyed = true ∧
-      s1.seq = s.seq + 1 ∧ s1.hand = s.hand ++ m ∧ s1.err = none := by
-  obtain ⟨s1, h1, h2, h3, h4, h5, h6⟩ := readOneHs_hs P dec ok s th hth body w' m hk hp hd h0 hm
-  refine ⟨s1, ?_, h2, h3, h4, h5, by rw [h6, he]⟩
+      s1.seq = s.seq + 1 ∧ s1.hand = s.hand ++ m ∧ s1.err = none ∧ s1.io.expired = false := by
+  obtain ⟨s1, h1, h2, h3, h4, h5, h6, h7⟩ := readOneHs_hs P dec ok s th hth body w' m hk hx hp hd h0 hm
+  refine ⟨s1, ?_, h2, h3, h4, h5, by rw [h6, he], h7⟩
   rw [recFuel_succ]
   simp [readRecordHs, he, h1]
 
@@ -138,15 +147,15 @@ theorem fillHand_one (P : Params) (dec : Dec) (k fuel : Nat) (s s1 : HsRx) (hk :
 /-- `readHandshake` on a Finished that arrives whole in one record -/
 theorem readHandshakeMsg_one (P : Params) (H : HsParams) (dec : Dec) (ok : HsOK P) (s : HsRx) (th : UInt8)
     (hth : th.toNat = P.typeHandshake) (body w' m : Bytes) (he : s.err = none) (hk : s.keyed = true)
-    (hh : s.hand = [])
+    (hh : s.hand = []) (hx : s.io.expired = false)
     (hp : parseOne P s.io.all = (.frame th body, w')) (hd : dec s.seq th body = some m)
     (hlen : m.length = 4 + be24 (m.getD 1 0) (m.getD 2 0) (m.getD 3 0))
     (hmax : be24 (m.getD 1 0) (m.getD 2 0) (m.getD 3 0) ≤ H.maxHandshake)
     (hm : m.length ≤ P.maxPlaintext) :
     ∃ s2, readHandshakeMsg P H dec s = (some m, none, s2) ∧ s2.io.all = w' ∧ s2.seq = s.seq + 1 ∧
-      s2.hand = [] ∧ s2.err = none := by
+      s2.hand = [] ∧ s2.err = none ∧ s2.io.expired = false := by
   have h0 : 0 < m.length := by omega
-  obtain ⟨s1, r1, r2, r3, r4, r5, r6⟩ := readRecordHs_hs P dec ok s th hth body w' m he hk hp hd h0 hm
+  obtain ⟨s1, r1, r2, r3, r4, r5, r6, r7⟩ := readRecordHs_hs P dec ok s th hth body w' m he hk hx hp hd h0 hm
   rw [hh, List.nil_append] at r5
   have hk4 : ¬ 4 ≤ s.hand.length := by rw [hh]; simp
   have h4 : 4 ≤ s1.hand.length := by rw [r5]; omega
@@ -167,7 +176,7 @@ theorem readHandshakeMsg_one (P : Params) (H : HsParams) (dec : Dec) (ok : HsOK 
   have hdrop : s1.hand.drop (4 + be24 (s1.hand.getD 1 0) (s1.hand.getD 2 0) (s1.hand.getD 3 0)) = [] := by
     rw [r5, ← hlen]; exact List.drop_length
   rw [htake, hdrop]
-  exact ⟨_, rfl, r2, r4, rfl, r6⟩
+  exact ⟨_, rfl, r2, r4, rfl, r6, r7⟩
 
 /-- **the boundary.**  `readFinished` on an honest last flight, whatever the chunking and
 whatever was already buffered: it succeeds, and the connection it hands to `Conn.Read`
@@ -175,14 +184,14 @@ whatever was already buffered: it succeeds, and the connection it hands to `Conn
 delivered yet — the bytes behind the Finished record are all still there. -/
 theorem lastFlight_honest (P : Params) (H : HsParams) (dec : Dec) (okFin : Bytes → Bool) (ok : HsOK P)
     (tc th ta tl cn : UInt8) (htc : tc.toNat = P.typeCCS) (hth : th.toNat = P.typeHandshake)
-    (s : HsRx) (he : s.err = none) (hk : s.keyed = false) (hh : s.hand = [])
+    (s : HsRx) (he : s.err = none) (hk : s.keyed = false) (hh : s.hand = []) (hx : s.io.expired = false)
     (ps : List Bytes) (closed : Bool)
     (hf : HonestFlight P H dec okFin tc th ta tl cn s.io.all ps closed) :
     ∃ s2, readLastFlight P H dec okFin s = (none, s2) ∧
       Inv P dec ta tl cn ps.flatten (finishHandshake s2) [] := by
   obtain ⟨w1, body, w2, fin, p1, p2, hd, hlen, hmax, hm, hty, hokf, hon⟩ := hf
-  obtain ⟨s1, c1, c2, c3, c4, c5, c6⟩ := readRecordHs_ccs P dec ok s tc htc w1 he hk hh p1
-  obtain ⟨s2, m1, m2, m3, m4, m5⟩ := readHandshakeMsg_one P H dec ok s1 th hth body w2 fin c6 c3 c5
+  obtain ⟨s1, c1, c2, c3, c4, c5, c6, c7⟩ := readRecordHs_ccs P dec ok s tc htc w1 he hk hh hx p1
+  obtain ⟨s2, m1, m2, m3, m4, m5, m6⟩ := readHandshakeMsg_one P H dec ok s1 th hth body w2 fin c6 c3 c5 c7
     (by rw [c2]; exact p2) (by rw [c4]; exact hd) hlen hmax hm
   refine ⟨s2, ?_, ?_⟩
   · unfold readLastFlight
@@ -191,7 +200,7 @@ theorem lastFlight_honest (P : Params) (H : HsParams) (dec : Dec) (okFin : Bytes
     rw [m1]
     simp only [hty, ne_eq, not_true_eq_false, ↓reduceIte, hokf, Bool.true_eq_false]
   · left
-    refine ⟨m5, ps, closed, ?_, by simp [finishHandshake]⟩
+    refine ⟨m5, m6, ps, closed, ?_, by simp [finishHandshake]⟩
     show Honest P dec ta tl cn s2.seq s2.io.all ps closed
     rw [m3, c4, m2]
     exact hon
